@@ -1,0 +1,33 @@
+// Copyright © 2022-2026 Obol Labs Inc. Licensed under the terms of a Business Source License 1.1
+
+//go:build verif
+
+package eth2wrap
+
+import (
+	"context"
+)
+
+// This file only exports existing unexported entry points to the verification harness
+// (build tag verif). It adds no behaviour.
+
+// VerifSnapshot returns the two maps the validator cache holds at this moment (nil when not
+// cached), read under the cache's own read lock. The harness only reads them.
+func (c *ValidatorCache) VerifSnapshot() (ActiveValidators, CompleteValidators) {
+	c.RLock()
+	defer c.RUnlock()
+
+	return c.active, c.complete
+}
+
+// VerifNewHTTPAdapter returns the production http adapter without a go-eth2-client service behind
+// it: only the methods the adapter implements itself (SetValidatorCache, ActiveValidators,
+// CompleteValidators, Address, ...) may be called on it.
+func VerifNewHTTPAdapter(address string) Client {
+	return newHTTPAdapter(nil, address, nil, 0)
+}
+
+// VerifNewLazy exposes newLazy: a lazy client whose inner client is created by provider on first use.
+func VerifNewLazy(provider func(context.Context) (Client, error)) Client {
+	return newLazy(provider)
+}
